@@ -667,11 +667,17 @@ PIN_LIB = ('# [ macro_use ] extern crate log ; mod element ; mod necessity ; mod
            'pub use parser :: { extend_struct , into_struct , ParserError } ;')
 
 
+PIN_CARGO = ['[[bin]] name="xml_schema_generator"', '[[bin]] path="src/main.rs"', '[lib] name="xml_schema_generator"', '[lib] path="src/lib.rs"',
+             '[dependencies] env_logger={version="0.11.6",optional=true}', '[dependencies] log="0.4.25"',
+             '[dependencies] quick-xml={version="0.37.2",features=["serialize"]}', '[dependencies] convert_string="0.2.0"',
+             '[dependencies] clap={version="4.5.28",features=["derive"]}', '[features] env_logger=["dep:env_logger"]']
+
+
 def indent(text, n=2):
     return "\n".join(" " * n + l for l in text.split("\n"))
 
 
-def generate(src, lib_src=None):
+def generate(src, lib_src=None, cargo_toml=None):
     m = re.search(r"#\[cfg\(test\)\]\s*mod\s+tests\b", src)
     if m:
         src = src[:m.start()]
@@ -691,6 +697,28 @@ def generate(src, lib_src=None):
     if " ".join(rest) != PIN_REST:
         raise Refuse("src/parser.rs contains something beside the pinned imports, `to_str`, `ParserError` (with its "
                      "Display text) and the six translated functions")
+    if cargo_toml is not None:
+        # the dependencies and their features decide what the reader and convert_string do
+        # (and no section may exist that changes how the crate is built: profiles, patches, a build script)
+        sect, keep = None, []
+        for line in cargo_toml.split("\n"):
+            line = line.strip()
+            if line.startswith("["):
+                sect = line
+                if sect not in ("[package]", "[[bin]]", "[lib]", "[dependencies]", "[dev-dependencies]", "[features]"):
+                    raise Refuse("Cargo.toml: section %s (profiles, patches, build settings are outside the pinned manifest)" % sect)
+            elif line and not line.startswith("#") and sect in ("[dependencies]", "[features]", "[lib]", "[[bin]]"):
+                keep.append(sect + " " + re.sub(r"\s+", "", line))
+            elif line and not line.startswith("#") and sect == "[package]":
+                key = line.split("=")[0].strip()
+                if key not in ("name", "version", "description", "authors", "edition", "license", "repository", "readme", "keywords", "categories"):
+                    raise Refuse("Cargo.toml: [package] key `%s`" % key)
+                if key == "edition" and re.sub(r"\s+", "", line) != 'edition="2021"':
+                    raise Refuse("Cargo.toml: the edition is not 2021")
+            elif line and not line.startswith("#") and sect is None:
+                raise Refuse("Cargo.toml: a key before the first section")
+        if keep != PIN_CARGO:
+            raise Refuse("Cargo.toml: dependencies, features or targets differ from the pinned ones: %r" % (keep,))
     if lib_src is not None:
         lm = re.search(r"#\[cfg\(test\)\]\s*mod\s+tests\b", lib_src)
         if " ".join(tokenize(lib_src[:lm.start()] if lm else lib_src)) != PIN_LIB:
